@@ -5,6 +5,9 @@ rejects and that reproduce when the single case is re-run in a fresh process."""
 import concurrent.futures as cf
 import json
 import os
+import re
+import subprocess
+import shutil
 import time
 
 from common import (VERIF, ToolError, build_harness, known_findings, log, run, scratch, tier_seed, tlc, tlc_failed,
@@ -64,7 +67,30 @@ MODEL = {"quick": ("MCEngine.tla", "MCEngineQuick.cfg"), "thorough": ("MCEngine.
 THOROUGH_FACTOR = 12
 SESSION_MODEL = "MCEngineSession.cfg"   # several calls (Execute / Fetch) on one instance
 SESSION_PROPS = ("C08", "C11")
+DEDUCTIVE_PROPS = ("C01", "C02", "C03", "C06", "C08", "C11", "C15")
 FOCUS = ["none"]     # the property whose check is running: names the flag when several checks of one event fail
+
+
+def deductive():
+    """TLAPS: the contract-level lemmas of spec/GruleEngineProofs.tla (unbounded: every rule set, fact state, budget, evaluation
+    order, number of calls; expression semantics opaque). A failed proof is a defect of the specification, not of the code."""
+    d = os.path.join(scratch(), "tlaps")
+    os.makedirs(d, exist_ok=True)
+    for f in ("GruleEngineCore.tla", "GruleEngineProofs.tla"):
+        shutil.copy(os.path.join(VERIF, "spec", f), d)
+    try:
+        p = subprocess.run(["tlapm", "--threads", "8", "GruleEngineProofs.tla"], cwd=d, capture_output=True, text=True, timeout=900)
+    except FileNotFoundError:
+        return {"module": "GruleEngineProofs.tla", "obligations_proved": 0, "statements": "tlapm is not installed: the deductive part was skipped"}
+    except subprocess.TimeoutExpired:
+        raise ToolError("tlapm timed out on GruleEngineProofs.tla")
+    out = p.stdout + p.stderr
+    m = re.search(r"All (\d+) obligations? proved", out)
+    if not m:
+        raise ToolError("tlapm did not prove GruleEngineProofs.tla:\n" + out[-2500:])
+    return {"module": "GruleEngineProofs.tla", "obligations_proved": int(m.group(1)),
+            "statements": "BudgetInv (C06), CandsInv (the conflict set is exact), FireIsSound (C01, C03), QuiescenceIsReal (C02), MaxIsNeeded (C06), "
+                          "FetchIsExact (C11), CancelledIsQuiet (C15), CallsStartAfresh (C08): for every rule set, fact state, MaxCycle and evaluation order"}
 
 
 def run_batch(gh, idx, profile, n, extra, seed, reps=2):
@@ -260,11 +286,13 @@ def evaluate(prop, batches, marks, rule, thorough_factor=None):
         mtla, mcfg = MODEL[tier]
         fm = ex.submit(tlc, None, mtla, mcfg, os.path.join(scratch(), "model"), "8", 3000, heap="8g")
         fs = ex.submit(tlc, None, mtla, SESSION_MODEL, os.path.join(scratch(), "model-session"), "4", 3000, heap="6g") if prop in SESSION_PROPS else None
+        fd = ex.submit(deductive) if prop in DEDUCTIVE_PROPS else None
         futs = [ex.submit(run_batch, gh, *j) for j in jobs]
         for f in futs:
             results.append(f.result())
         model = fm.result()
         session = fs.result() if fs else None
+        proofs = fd.result() if fd else None
     if not model["ok"]:
         tlc_failed(model, "exhaustive model " + MODEL[tier][1])
     if session is not None and not session["ok"]:
@@ -335,6 +363,7 @@ def evaluate(prop, batches, marks, rule, thorough_factor=None):
         "model": "%s / %s: exhaustive, no invariant or action property violated" % MODEL[tier]
                  + ("; %s (sessions of 3 calls Execute / Fetch on one instance, FreshAtStart, FetchExact, FetchPure): %d distinct states"
                     % (SESSION_MODEL, session["distinct"]) if session else ""),
+        "deductive": proofs,
         "traces_validated_against_impl": traces, "trace_events": events,
         "monitor_states": sum(b["tlc"]["distinct"] for b in results),
         "evaluations": traces, "distinct_nontrivial": own_marks,
